@@ -52,6 +52,22 @@ theorem pure_limit (kind : Kind) {nC nG : Nat} {cg : Nat → Nat → ℝ} {Qs Rs
   rw [vget_gammaF _ _ _ _ _ hsize]
   exact gammaFS_vertex kind index wf inter T hnC hinj x hi hx
 
+/-- **pure_limit, as a limit.**  `γ_i → 1` as the composition handed to the kernels tends to the
+vertex `e_i` (from any direction: the approaching compositions need not be normalised or
+non-negative).  Together with `pure_limit_kernel` (the value at the vertex) this is the clause
+"the coefficient of a chemical tends to one as its mole fraction tends to one". -/
+theorem pure_limit_tendsto (kind : Kind) {nC nG : Nat} {cg : Nat → Nat → ℝ} {Qs Rs : Nat → ℝ}
+    (index : Nat → Nat) (wf : WF nC nG cg Qs Rs) (inter : Nat → Nat → Nat → ℝ) (T : ℝ)
+    {i : Nat} (hi : i < nC) :
+    Tendsto (fun xs : ℕ → ℝ => vget (gammaSub kind (build nC nG index cg Qs Rs) inter T xs).1 i)
+      (𝓝 (e i)) (𝓝 1) := by
+  have : (fun xs : ℕ → ℝ => vget (gammaSub kind (build nC nG index cg Qs Rs) inter T xs).1 i)
+      = fun xs => gammaSubS kind (build nC nG index cg Qs Rs) inter T xs i := by
+    funext xs
+    exact vget_gammaSub _ _ _ _ _ (show i < (build nC nG index cg Qs Rs).nC from hi)
+  rw [this]
+  exact gammaSubS_tendsto index wf kind inter T hi
+
 /-! ### perm_equivariant -/
 
 /-- **perm_equivariant (kernels).**  Relabelling the chemicals by `σ` and the subgroups by `τ`
